@@ -121,6 +121,8 @@ class SchedulingSolver(BaseModelWithJson):
         self._objective = None  # the list of all objectives defined in this problem
         self._model = None  # no solution until the problem is solved
         self._map_boolrefs_to_constraints = {}
+        # the names of all the tracking literals (debug mode)
+        self._tracking_literals = []
         self._initialized = False
 
         if self.debug:
@@ -441,6 +443,7 @@ class SchedulingSolver(BaseModelWithJson):
             for asst in assts:
                 asst_identifier = f"asst_{uuid.uuid4().hex[:8]}"
                 self._solver.assert_and_track(asst, asst_identifier)
+                self._tracking_literals.append(asst_identifier)
                 # if the higher_contraint_name is defined, fill in the map_boolrefs_to_geometric_constraints dict
                 # to track the constraint that causes the conflict
                 if higher_constraint_name is not None:
@@ -930,5 +933,14 @@ class SchedulingSolver(BaseModelWithJson):
             if isinstance(self._solver, z3.Optimize):
                 # the z3 Optimize class has no to_smt2 method
                 outfile.write(self._solver.sexpr())
+            elif self._tracking_literals:
+                # debug mode: a tracked assertion is exported as "literal => assertion";
+                # the literals, assumed by each check, have to be asserted as well
+                exported_solver = z3.Solver()
+                exported_solver.add(self._solver.assertions())
+                exported_solver.add(
+                    [z3.Bool(literal) for literal in self._tracking_literals]
+                )
+                outfile.write(exported_solver.to_smt2())
             else:
                 outfile.write(self._solver.to_smt2())
